@@ -215,7 +215,7 @@ int disasm_cell(
 
   strcpy(instruction, "???");
 
-  return 0;
+  return 4;
 }
 
 void list_output_cell(
